@@ -552,6 +552,18 @@ def build_visit(mir, cube):
         real = [z3.Not(has_pending_load), z3.Not(has_vi), has_locker, z3.Or([scheme == SCHEMES.index(x) for x in ('https', 'http', 'file')]), z3.Not(pre_present), z3.Not(is_root),
                 z3.Or(mclass == MSI.index('Json'), z3.And(mclass == MSI.index('Js'), z3.Or(mt == MT.index('TypeScript'), mt == MT.index('Dts'))))]
         lkw = dict(ops=[OpLock()], world=VW(), realizable=real)
+        class OpDeferred:
+            # replayed through a real build: a jsr: import of a package with embedded module information, nothing cached (cache-only probe finds
+            # nothing), the deferred content load delivers the module: the scripted loader records what each call carried
+            def op_json(self, m):
+                return {'op': 'try_load', 'asset': False, 'checksum_known': False, 'answers': ['NotFound', 'Module'], 'parse_ok': True, 'in_dynamic_branch': False,
+                        'redirect_count': 0, 'max_redirects': 10, 'route': 'jsr_specifier', 'embedded_info': True}
+            def decode(self, m):
+                CSN = en['CacheSetting']
+                second = [{'cache_setting': CSN[ev(m, l[2])], 'checksum': ev(m, l[3])} for l in loads if ev(m, l[0])]
+                return {'calls': [{'cache_setting': 'Only', 'checksum': True}] + second, 'result': 'module', 'err_has_referrer': None}
+        dkw = dict(ops=[OpDeferred()], world=VW(), realizable=[has_pending_load, has_vi, has_ref, z3.Not(is_root), z3.Not(in_dyn), z3.Not(was_dyn_root), scheme == SCHEMES.index('https'),
+                                                                 mclass == MSI.index('Js'), mt == MT.index('TypeScript'), pre_present, pre_pending])
         is_decl = Or(z3.And(mclass == MSI.index('Js'), mt == MT.index(x)) for x in ('Dts', 'Dmts', 'Dcts'))
         remote = z3.Or(scheme == SCHEMES.index('https'), scheme == SCHEMES.index('http'))
         must_write = z3.And(z3.Not(has_pending_load), z3.Not(has_vi), z3.Not(is_decl), remote, has_locker, z3.Not(locker_has))
@@ -561,12 +573,12 @@ def build_visit(mir, cube):
                Query('the-recorded-checksum-is-the-digest-of-the-bytes-of-that-module-under-its-specifier', Or(z3.And(g, z3.Or(sp != 0, tok != bytes_tok + 100)) for g, sp, tok in lock_writes), **lkw),
                Query('a-deferred-content-load-asks-the-loader-once-with-the-manifest-checksum',
                      z3.Or(Or(g for g, *_ in loads) != has_pending_load, Or(z3.And(l[0], z3.Or(l[1] != 0, z3.Not(l[3]), l[4] != CK_MANIFEST, l[2] != en['CacheSetting'].index('Use'), l[5] != in_dyn, l[6] != was_dyn_root)) for l in loads),
-                           Or(z3.And(loads[i][0], loads[j][0]) for i in range(len(loads)) for j in range(i + 1, len(loads))))),
+                           Or(z3.And(loads[i][0], loads[j][0]) for i in range(len(loads)) for j in range(i + 1, len(loads)))), **dkw),
                Query('the-module-entry-is-stored-under-its-specifier', z3.Not(z3.And(post.present[0], post.vals[0].tag == SL.index('Module'))) if isinstance(post.vals[0], EnumV) else z3.BoolVal(True)),
                Query('a-root-is-remembered-as-resolved', roots_after.mem[0] != is_root),
                Query('witness-checksum-recorded', wrote, expect='sat', kind='witness', **lkw),
                Query('witness-declaration-file-not-recorded', z3.And(is_decl, remote, has_locker, z3.Not(locker_has), z3.Not(has_vi), z3.Not(has_pending_load)), expect='sat', kind='witness', **lkw),
-               Query('witness-deferred-content-load', Or(g for g, *_ in loads), expect='sat', kind='witness')]
+               Query('witness-deferred-content-load', Or(g for g, *_ in loads), expect='sat', kind='witness', **dkw)]
     elif kind == 'External':
         pv = post.vals[0]
         ext_ok = z3.And(post.present[0], pv.tag == SL.index('Module')) if isinstance(pv, EnumV) else z3.BoolVal(False)
